@@ -125,10 +125,11 @@ theorem step_word_agrees (e : WordEntry) (he : e ∈ wordTable) (s : IState) (hc
   Proofs.EvmStep.step_word_agrees e he s hcode hwf
 
 /-- the 18 environment reads (ADDRESS, ORIGIN, CALLER, CALLVALUE, CALLDATASIZE, CODESIZE, GASPRICE, RETURNDATASIZE,
-COINBASE, TIMESTAMP, NUMBER, GASLIMIT, CHAINID, BASEFEE, BLOBBASEFEE, PC, MSIZE, GAS) -/
+COINBASE, TIMESTAMP, NUMBER, GASLIMIT, CHAINID, BASEFEE, BLOBBASEFEE, PC, MSIZE, GAS); CODESIZE in legacy code
+(`hleg`: in an EOF frame its `assume!(!is_eof)` is violated, a fault of the model) -/
 theorem step_env_agrees (e : EnvEntry) (he : e ∈ envTable) (s : IState) (hcode : s.code[s.pc]? = some e.op)
-    (hwf : WF s) : step s = .pure (e.rule s) :=
-  Proofs.EvmStep.step_env_agrees e he s hcode hwf
+    (hwf : WF s) (hleg : e.op = 0x38 → s.isEof = false) : step s = .pure (e.rule s) :=
+  Proofs.EvmStep.step_env_agrees e he s hcode hwf hleg
 
 /-- a state satisfying the hypotheses: `PUSH1 1 PUSH1 2 ADD` at the ADD -/
 example : ∃ s : IState, WF s ∧ s.code[s.pc]? = some 0x01 ∧ (⟨0x01, 3, 0, .bin Spec.Arith.add⟩ : WordEntry) ∈ wordTable :=
